@@ -132,6 +132,24 @@ func c03PointReps(a, b *big.Int) []c03PtRep {
 		{"b*G", false, Q, rQ},
 		{"G", false, func() curve.Point { return g.NewBasePoint() }, func(o *c03Oracle) c03TbPt { return c03TbG() }},
 		{"a*G+b*G", false, func() curve.Point { return P().Add(Q()) }, func(o *c03Oracle) c03TbPt { return o.ptAdd(rP(o), rQ(o)) }},
+		// ---- negations: same x coordinate as the point they negate, never equal to it (finite points have y != 0) ----
+		{"(q-a)*G", false, func() curve.Point { return sc(qm(a)).ActOnBase() }, func(o *c03Oracle) c03TbPt { return o.baseMul(qm(a)) }},
+		{"decoded(a*G with the other parity byte)", false, func() curve.Point {
+			bts, err := P().MarshalBinary()
+			if err != nil {
+				panic(err)
+			}
+			bts[0] ^= 1
+			n := g.NewPoint()
+			if err := n.UnmarshalBinary(bts); err != nil {
+				panic(err)
+			}
+			return n
+		}, func(o *c03Oracle) c03TbPt { return o.ptNeg(rP(o)) }},
+		{"NewPoint().Sub(a*G)", false, func() curve.Point { return g.NewPoint().Sub(P()) }, func(o *c03Oracle) c03TbPt { return o.ptNeg(rP(o)) }},
+		{"-(b*G)", false, func() curve.Point { return Q().Negate() }, func(o *c03Oracle) c03TbPt { return o.ptNeg(rQ(o)) }},
+		{"-G", false, func() curve.Point { return g.NewBasePoint().Negate() }, func(o *c03Oracle) c03TbPt { return o.ptNeg(c03TbG()) }},
+		{"-(a*G+b*G)", false, func() curve.Point { return P().Add(Q()).Negate() }, func(o *c03Oracle) c03TbPt { return o.ptNeg(o.ptAdd(rP(o), rQ(o))) }},
 	}
 }
 
@@ -165,6 +183,11 @@ func c03ScalarReps(a, b *big.Int) []c03ScRep {
 		{"b", false, func() curve.Scalar { return sc(b) }, func(o *c03Oracle) *big.Int { return new(big.Int).Mod(b, c03TbQ) }},
 		{"1", false, func() curve.Scalar { return sc(one) }, func(o *c03Oracle) *big.Int { return one }},
 		{"q-1", false, func() curve.Scalar { return sc(qm1) }, func(o *c03Oracle) *big.Int { return qm1 }},
+		// ---- negations ----
+		{"q-a", false, func() curve.Scalar { return sc(new(big.Int).Mod(new(big.Int).Sub(c03TbQ, a), c03TbQ)) }, func(o *c03Oracle) *big.Int { return o.linMod(new(big.Int), qm1, a) }},
+		{"0.Sub(a)", false, func() curve.Scalar { return g.NewScalar().Sub(sc(a)) }, func(o *c03Oracle) *big.Int { return o.linMod(new(big.Int), qm1, a) }},
+		{"-b", false, func() curve.Scalar { return sc(b).Negate() }, func(o *c03Oracle) *big.Int { return o.linMod(new(big.Int), qm1, b) }},
+		{"-1", false, func() curve.Scalar { return sc(one).Negate() }, func(o *c03Oracle) *big.Int { return qm1 }},
 	}
 }
 
